@@ -104,16 +104,20 @@ def r2(ctx, rep):
     syn = ctx.syn
     f = syn.fn("Lowerer::declare_as_column", crate="prqlc")
     stmts = f["body"]["s"]
-    idx = [i for i, s in enumerate(stmts) if s.get("k") == "local" and show(s["pat"]) == "cid" and show(s.get("init")) == "self.cid.gen()"]
+    # by role: the local that receives the fresh id, whatever it is called
+    idx = [i for i, s in enumerate(stmts) if s.get("k") == "local" and s["pat"].get("k") == "p_ident" and show(s.get("init")) == "self.cid.gen()"]
     if not idx:
-        raise AnchorMissing("declare_as_column: `let cid = self.cid.gen()`")
+        raise AnchorMissing("declare_as_column: `let <id> = self.cid.gen()`")
+    cid_name = stmts[idx[0]]["pat"]["n"]
     rest = {"k": "block", "l": stmts[idx[0]]["l"], "s": stmts[idx[0] + 1:]}
+    import alpha as _alpha
+    A_ = _alpha.Inliner(f, max_inline=2)
 
     def pushed(n):
-        return n.get("k") == "mcall" and n["m"] == "push" and show(n["r"]) == "self.pipeline" and "Transform::Compute(compute)" in show(n["a"][0])
+        return n.get("k") == "mcall" and n["m"] == "push" and show(n["r"]) == "self.pipeline" and A_.show(n["a"][0]).startswith("Transform::Compute(")
 
     def mapped(n):
-        return n.get("k") == "mcall" and n["m"] == "insert" and show(n["r"]) == "self.node_mapping" and "LoweredTarget::Compute(cid)" in show(n["a"][1] if len(n["a"]) > 1 else n)
+        return n.get("k") == "mcall" and n["m"] == "insert" and show(n["r"]) == "self.node_mapping" and f"LoweredTarget::Compute({cid_name})" in show(n["a"][1] if len(n["a"]) > 1 else n)
 
     bad1 = flow.must_precede_exits(rest, pushed)
     bad2 = flow.must_precede_exits(rest, mapped)
@@ -125,7 +129,7 @@ def r2(ctx, rep):
     for n in walk(f["body"]):
         if n.get("k") == "struct" and last_seg(n["p"]) == "Compute":
             cs = {a: show(b) for a, b in n["f"]}
-    rep.check(cs is not None and cs.get("id") == "cid" and cs.get("expr") == "expr", "compute-fields", f"the Compute must define exactly that cid with the lowered expression; found {cs}", file=f["file"], line=f["l"], fn=f["path"])
+    rep.check(cs is not None and cs.get("id") == cid_name and "expr" in cs, "compute-fields", f"the Compute must define exactly that id with the lowered expression; found {cs}", file=f["file"], line=f["l"], fn=f["path"])
     # lower_table_ref: declared before instanced
     t = syn.fn("Lowerer::lower_table_ref", crate="prqlc")
     m = None
@@ -137,14 +141,15 @@ def r2(ctx, rep):
     n_arms = 0
     for arm in m["arms"]:
         body = arm["body"]
-        gens = [n for n in walk_no_closure(body) if n.get("k") == "local" and show(n["pat"]) == "tid" and show(n.get("init")) == "self.tid.gen()"]
+        gens = [n for n in walk_no_closure(body) if n.get("k") == "local" and n["pat"].get("k") == "p_ident" and show(n.get("init")) == "self.tid.gen()"]
         if not gens:
             continue
         n_arms += 1
         head = show(arm["pat"])[:40]
+        tid_name = gens[0]["pat"]["n"]
 
-        def declared(n):
-            return n.get("k") == "mcall" and n["m"] == "push" and show(n["r"]) == "self.table_buffer" and "id: tid" in show(n["a"][0], maxdepth=4)
+        def declared(n, tid_name=tid_name):
+            return n.get("k") == "mcall" and n["m"] == "push" and show(n["r"]) == "self.table_buffer" and f"id: {tid_name}" in show(n["a"][0], maxdepth=4)
         # every create_a_table_instance(.., tid) must be preceded by the declaration
         seq = body["s"] if body.get("k") == "block" else [body]
         seen_decl = False
@@ -154,7 +159,7 @@ def r2(ctx, rep):
             for n in walk_no_closure(st):
                 if declared(n):
                     seen_decl = True
-                if n.get("k") == "mcall" and n["m"] == "create_a_table_instance" and show(n["a"][-1]) == "tid":
+                if n.get("k") == "mcall" and n["m"] == "create_a_table_instance" and show(n["a"][-1]) == tid_name:
                     found_inst = True
                     if not seen_decl:
                         ok = False
@@ -171,7 +176,7 @@ def r2(ctx, rep):
     # create_a_table_instance records the instance columns for later lookups
     c = syn.fn("Lowerer::create_a_table_instance", crate="prqlc")
     txt = show_stmts(c["body"], maxdepth=10)
-    rep.check("self.node_mapping.insert(id, LoweredTarget::Input(input_cids))" in txt, "instance-mapped", "create_a_table_instance must record the instance's column ids in node_mapping", file=c["file"], line=c["l"], fn=c["path"])
+    rep.check(any(n.get("k") == "mcall" and n["m"] == "insert" and show(n["r"]) == "self.node_mapping" and len(n["a"]) == 2 and show(n["a"][1], maxdepth=4).startswith("LoweredTarget::Input(") for n in walk(c["body"])), "instance-mapped", "create_a_table_instance must record the instance's column ids in node_mapping", file=c["file"], line=c["l"], fn=c["path"])
 
 
 def r3_r4(ctx, rep):
